@@ -64,9 +64,9 @@ THEOREMS = {
     "new": [_P + "construct_eq", _P + "construct_inv", _P + "inv_history"],
     "mset": [_P + "multiset_sorted_perm", _P + "multiset_eq_spec", _P + "multiset_eq_stable",
              _P + "multiset_eq_stable_contract", _P + "multiset_eq_stable_inplace_vector", _P + "multiset_spec_stable"],
-    "erase_if": [_P + "setEraseIf_eq", _P + "step_refines", _P + "run_refines"],
-    "cmp": [_P + "setEq_eq", _P + "setLt_eq", _P + "relOps_eq", _P + "step_refines"],
-    "sizes": [_P + "sizes_eq", _P + "sizes_consistent", _P + "step_refines"],
+    "erase_if": [_P + "setEraseIf_eq", _P + "xstep_refines", _P + "xrun_refines", _P + "xinv_history"],
+    "cmp": [_P + "setEq_eq", _P + "setLt_eq", _P + "relOps_eq", _P + "xstep_refines", _P + "xrun_refines"],
+    "sizes": [_P + "sizes_eq", _P + "sizes_consistent", _P + "xstep_refines", _P + "xrun_refines"],
 }
 # flat_set over etl::inplace_vector (kind=fv) and the container contract
 THEOREMS["new"] += [_P + "fv_construct_eq", _P + "contract_is_static_vector", _P + "static_vector_models_agree"]
